@@ -15,6 +15,7 @@ from __future__ import annotations
 import ast
 import re
 
+from .. import inline
 from ..facts import UNKNOWN, call_name, norm
 from ..util import expand_locals, is_call_named
 
@@ -58,15 +59,23 @@ def check(run, ctx):
     (run.ok(D2, "build_violation", f"len({p2}) and _get_location_refs(block, {p2})") if ok else run.finding(D2, "build_violation", "different-lists", "the occurrence count and the location list are not computed from the same list", bv.loc))
     cv = repo.func(f"{PKG}.violation_generator.ViolationGenerator._collect_violations")
     okc = False
-    for n in ast.walk(cv.node):
-        if isinstance(n, ast.For) and isinstance(n.iter, ast.Name):
-            for c in ast.walk(n):
-                if is_call_named(c, "build_violation") and len(c.args) >= 2 and isinstance(c.args[1], ast.Name) and c.args[1].id == n.iter.id and isinstance(c.args[0], ast.Name) and isinstance(n.target, ast.Name) and c.args[0].id == n.target.id:
+    # `for b in L: build_violation(b, L, ...)` as a loop or as a comprehension / generator, unfiltered
+    iters = [(n.target, n.iter, n, []) for n in ast.walk(cv.node) if isinstance(n, ast.For)]
+    iters += [(g.target, g.iter, n, g.ifs) for n in ast.walk(cv.node) if isinstance(n, (ast.ListComp, ast.GeneratorExp)) for g in n.generators]
+    for tgt, it, scope, ifs in iters:
+        if isinstance(it, ast.Name) and isinstance(tgt, ast.Name) and not ifs:
+            for c in ast.walk(scope):
+                if is_call_named(c, "build_violation") and len(c.args) >= 2 and isinstance(c.args[1], ast.Name) and c.args[1].id == it.id and isinstance(c.args[0], ast.Name) and c.args[0].id == tgt.id:
                     okc = True
     (run.ok(D2, "_collect_violations", "for block in L: build_violation(block, L, ...)") if okc else run.finding(D2, "_collect_violations", "loop-list", "violations are not built for each member of the list whose size is reported", cv.loc))
     gl = repo.func(f"{PKG}.violation_builder.DRYViolationBuilder._get_location_refs")
     comp = next((n for n in ast.walk(gl.node) if isinstance(n, ast.ListComp) and n.generators[0].ifs), None)
-    cond = ast.unparse(comp.generators[0].ifs[0]) if comp is not None else ""
+    cond_e = comp.generators[0].ifs[0] if comp is not None else None
+    if isinstance(cond_e, ast.Call):   # the predicate may be a private helper: take its return expression
+        h_ = inline.resolve_call(repo, gl, cond_e)
+        rets_ = [r_.value for r_ in ast.walk(h_.node) if isinstance(r_, ast.Return) and r_.value is not None] if h_ is not None else []
+        cond_e = rets_[0] if len(rets_) == 1 else cond_e
+    cond = ast.unparse(cond_e) if cond_e is not None else ""
     ok = "file_path" in cond and "start_line" in cond and " or " in cond and "!=" in cond
     (run.ok(D2, "_get_location_refs", "all other members (differs in file or start line)") if ok else run.finding(D2, "_get_location_refs", f"other-filter:{cond}", "the 'other locations' are not exactly the members differing in file or start line", gl.loc))
 
